@@ -132,13 +132,20 @@ def walking_iterator_slot(tops):
             return True
         if t and t[0] == 'deref' and len(t) > 1 and isinstance(t[1], tuple):
             inner = t[1][2] if (t[1][:1] == ('ld',) and len(t[1]) == 3) else t[1]
-            if isinstance(inner, tuple) and inner[:1] == ('elem',) and len(inner) > 1 and isinstance(inner[1], tuple) and inner[1][:1] == ('var',):
+            if isinstance(inner, tuple) and inner[:1] == ('elem',) and len(inner) > 1 and isinstance(inner[1], tuple) and \
+                    (inner[1][:1] == ('var',) or (inner[1][:1] == ('fld',) and isinstance(inner[1][1], tuple) and inner[1][1][:1] == ('var',))):
                 return True   # `*p` with p an element of a local container (pointers / iterators collected in an earlier loop)
         return any(has_lv_deref(x, depth + 1) for x in t if isinstance(x, tuple))
+    def local_container(c):
+        # a local container, or a container member of a local helper object (`reaper.m_doomed`)
+        while isinstance(c, tuple) and c[:1] == ('fld',) and len(c) == 3:
+            c = c[1]
+        return isinstance(c, tuple) and c[:1] == ('var',)
+
     def is_local_elem(t):
         if isinstance(t, tuple) and t[:1] == ('ld',) and len(t) == 3:
             t = t[2]
-        return isinstance(t, tuple) and t[:1] == ('elem',) and len(t) > 1 and isinstance(t[1], tuple) and t[1][:1] == ('var',)
+        return isinstance(t, tuple) and t[:1] == ('elem',) and len(t) > 1 and isinstance(t[1], tuple) and local_container(t[1])
     for top in tops:
         kind = top.L.r.kind
         for seg in top.all_segments():
